@@ -7,6 +7,7 @@ Verdict policy (DESIGN 2.5):
 """
 import json
 import os
+import re
 import shutil
 import subprocess
 import sys
@@ -48,6 +49,7 @@ class Ctx:
         self.assumptions = []
         self.level = "model_checking"
         self._bins = {}
+        self.crashes = []
         self.replay_prefix = ""
         os.makedirs(os.path.join(OUT, "replays", prop), exist_ok=True)
 
@@ -110,7 +112,32 @@ class Ctx:
                                stderr=subprocess.PIPE, text=True if stdout is None else None)
         except subprocess.TimeoutExpired:
             raise Broken("timeout after %ss: %s" % (timeout, " ".join(cmd)[:200]))
+        self._note_crash(cmd, p)
         return p
+
+    def _note_crash(self, cmd, p):
+        """A driver process that dies from a Go runtime fatal error or an unrecovered panic whose stack runs through the library
+        (not only through the harness) is an observation about the library: remembered here, reported by check.py as a
+        violation if the check then gives up as broken."""
+        err = p.stderr if isinstance(p.stderr, str) else (p.stderr or b"").decode("utf-8", "replace")
+        if p.returncode in (0, None) or not err:
+            return
+        m = re.search(r"^(fatal error: .*|panic: .*)$", err, re.M)
+        if not m or "goroutine " not in err:
+            return
+        block = err[m.start():]
+        first = block.split("\n\ngoroutine", 2)
+        stack = first[1] if len(first) > 1 else block
+        frames = [l.strip() for l in stack.splitlines() if l.startswith("github.com/") or l.startswith("verifharness/") or l.startswith("main.")]
+        lib = [f for f in frames if "github.com/basecomplextech/spec/" in f and "/verifhook" not in f]
+        if not lib:
+            return
+        reason = m.group(1).strip()
+        if reason.startswith("panic:") and lib and frames and not frames[0].startswith("github.com/basecomplextech/spec"):
+            # a panic raised by harness code that merely has library frames below it on the stack is the harness's own
+            if not any("github.com/basecomplextech/spec" in f for f in frames[:3]):
+                return
+        self.crashes.append({"driver": os.path.basename(cmd[0]), "reason": reason[:200], "frames": lib[:8], "stderr": block[:6000]})
 
     # ---- verdicts ------------------------------------------------------
     def save_replay(self, name, obj):
